@@ -22,7 +22,9 @@ pub open spec fn lex_cmp(a: Seq<u8>, b: Seq<u8>) -> core::cmp::Ordering {
 }
 pub axiom fn axiom_vec_u8_cmp_lex()
     ensures <Vec<u8> as vstd::std_specs::cmp::OrdSpec>::obeys_cmp_spec(),
-        forall|a: Vec<u8>, b: Vec<u8>| #[trigger] vstd::std_specs::cmp::OrdSpec::cmp_spec(&a, &b) == lex_cmp(a@, b@);
+        forall|a: Vec<u8>, b: Vec<u8>| #[trigger] vstd::std_specs::cmp::OrdSpec::cmp_spec(&a, &b) == lex_cmp(a@, b@),
+        <Vec<u8> as vstd::std_specs::cmp::PartialOrdSpec>::obeys_partial_cmp_spec(),
+        forall|a: Vec<u8>, b: Vec<u8>| #[trigger] vstd::std_specs::cmp::PartialOrdSpec::partial_cmp_spec(&a, &b) == Some(lex_cmp(a@, b@));
 
 pub open spec fn has_key(ls: Map<Vec<u8>, Delta>, k: Seq<u8>) -> bool { exists|kv: Vec<u8>| kv@ == k && ls.contains_key(kv) }
 pub open spec fn the_key(ls: Map<Vec<u8>, Delta>, k: Seq<u8>) -> Vec<u8> { choose|kv: Vec<u8>| kv@ == k && ls.contains_key(kv) }
